@@ -199,7 +199,7 @@ type selfTestResult struct {
 func RunSelfTests(repo, verif, prop, self string) ([]selfTestResult, error) {
 	cases := selfTestCases(verif, prop)
 	res := make([]selfTestResult, len(cases))
-	sem := make(chan struct{}, 6)
+	sem := make(chan struct{}, 12)
 	var wg sync.WaitGroup
 	for i, c := range cases {
 		wg.Add(1)
